@@ -212,6 +212,7 @@ FIT_TABLES: List[Tuple[str, str, List[Tuple[Any, ...]], Dict[str, Any], Optional
     ("serials above 99999 in a table of short chain ids", "basic", [("A", 1, None), ("A", 2, None), ("B", 1, None)], {"first_id": 99999}, None),
     ("a table without the optional insertion-code column", "no-icode", [("AA", 5, None), ("AA", 6, None), ("B", 5, None)], {"icode_column": False}, None),
     ("one model cut out of a larger table (row labels 100, 101, ...)", "labels", [("AA", 5, None), ("AA", 5, "A"), ("B", 7, None), ("AA", 6, None)], {}, [100, 101, 102, 103]),
+    ("a table put together from per-residue pieces: row labels neither increasing nor starting at 0 (7, 3, 12, 5, 9, 4)", "labels", [("AA", 5, None), ("AA", 5, None), ("B", 7, None), ("AA", 6, None), ("B", 7, "A"), ("AA", 6, None)], {}, [7, 3, 12, 5, 9, 4]),
     ("a two-model table handed over whole (model 2 repeats the residue identities of model 1)", "noncontiguous", [("AA", 5, None, 1), ("AA", 6, None, 1), ("AA", 5, None, 2), ("AA", 6, None, 2)], {}, None),
     ("insertion codes on every residue", "basic", [("AA", 5, "A"), ("AA", 5, "B"), ("AA", 5, "B"), ("B", 5, "A")], {}, None),
 ]
@@ -330,13 +331,19 @@ def check_fit_eval(chk, fi) -> Optional[Set[str]]:
             note("result", None if out.attrs.get("format") == "PDB" else f"{tag}: the fitted table is tagged format={out.attrs.get('format')!r}, not 'PDB'")
             # atoms keep their order and every other field
             moved = [f for f, srcs in FIELD_SOURCE.items() if not all(_same(cols[f][i], rows[i][srcs[0]]) for i in range(n))]
-            if moved:
-                perm = sorted(str(v) for v in cols["x"]) == sorted(str(r["Cartn_x"]) for r in rows) and "x" in moved
-                note("frame-condition", f"{tag}: " + ("the atoms do not keep their order" if perm else f"field(s) {moved[:4]} of the fitted table differ from the source rows"))
+            perm = bool(moved) and "x" in moved and sorted(str(v) for v in cols["x"]) == sorted(str(r["Cartn_x"]) for r in rows)
+            if perm:
+                order = [next((j for j, r in enumerate(rows) if _same(r["Cartn_x"], v)), None) for v in cols["x"]]
+                note("row-order", f"{tag}: the atoms come back in the order {[None if j is None else j + 1 for j in order]} of their input positions - the fitted table is a permutation of the table handed in (every field still belongs to its atom, but 'atoms keep their order' does not hold, and serials / TER records follow the new order)")
+            elif moved:
+                note("frame-condition", f"{tag}: field(s) {moved[:4]} of the fitted table differ from the source rows")
             else:
                 note("frame-condition", None)
-            old_chain = [r["auth_asym_id"] for r in rows]
-            old_res = [(r["auth_asym_id"], r["auth_seq_id"], None if isna(r.get("pdbx_PDB_ins_code")) else r.get("pdbx_PDB_ins_code")) for r in rows]
+                note("row-order", None)
+            # which input row each output row is (the same position unless the table came back permuted, reported above)
+            src_rows = [rows[j] for j in order] if perm and all(j is not None for j in order) and len(set(order)) == n else rows
+            old_chain = [r["auth_asym_id"] for r in src_rows]
+            old_res = [(r["auth_asym_id"], r["auth_seq_id"], None if isna(r.get("pdbx_PDB_ins_code")) else r.get("pdbx_PDB_ins_code")) for r in src_rows]
             new_chain = list(cols["chainID"])
             new_res = [(cols["chainID"][i], None if isna(cols["resSeq"][i]) else int(cols["resSeq"][i]), None if isna(cols["iCode"][i]) or cols["iCode"][i] == "" else cols["iCode"][i]) for i in range(n)]
             # chains: a one-to-one renaming into single characters
@@ -411,7 +418,8 @@ def check_fit_eval(chk, fi) -> Optional[Set[str]]:
         "residue-map": "every residue (chain, number, insertion code) gets one new number 1..n of its chain, different residues get different numbers, also when its atoms are not contiguous, come in several models or carry arbitrary row labels",
         "chain-map": "chains are renamed one-to-one into single characters",
         "serial-renumber": "serials ascend from 1 in row order within the limit, leaving a number for the TER of every chain change",
-        "frame-condition": "atoms keep their order; record type, names, coordinates, occupancy, B-factor, element, charge and model are those of the source rows",
+        "frame-condition": "record type, names, coordinates, occupancy, B-factor, element, charge and model of every row are those of the source row",
+        "row-order": "atoms keep their order, whatever the row labels of the table are (default, offset, neither increasing nor starting at 0)",
         "input-untouched": "the table handed in is not changed",
         "result": "a table that needs fitting comes back as a new table tagged format='PDB'",
         "essential-columns": "the fitted table has the PDB columns the writer reads",
@@ -430,7 +438,15 @@ def check_fit_eval(chk, fi) -> Optional[Set[str]]:
         report_silent_exits(chk, "result", [fi] + helpers, cov, "tables (nine that need fitting, three that do not)", {"continue": "rows or chains are left out of the renaming", "break": "the renaming ends early", "return": "a table is returned before the fitting is complete (or the input itself, unfitted)"})
         for rule in sorted(set(texts)):
             if rule in bad:
-                chk.violation(rule, fi.where, f"evaluated on representative tables: {bad[rule][0]}", K(fi, f"eval:{rule}"), found=bad[rule][:4])
+                key = K(fi, f"eval:{rule}")
+                if rule == "row-order":
+                    # which construct reorders: a sort of the fitted table by its index labels is finding F24 (known_findings.json)
+                    srt = [c2 for c2 in ast.walk(fi.node) if isinstance(c2, ast.Call) and isinstance(c2.func, ast.Attribute) and c2.func.attr == "sort_index"]
+                    key = "parser_v2:fit_to_pdb:sort_index" if srt else key
+                    site = fi.site(srt[0]) if srt else fi.where
+                    chk.violation(rule, site, f"evaluated on representative tables: {bad[rule][0]}" + (f" (`{norm(srt[0])[:50]}` sorts the rows by their labels)" if srt else ""), key, found=bad[rule][:4])
+                    continue
+                chk.violation(rule, fi.where, f"evaluated on representative tables: {bad[rule][0]}", key, found=bad[rule][:4])
             elif rule in ("residue-map", "frame-condition", "chain-map"):
                 for tag, *_ in FIT_TABLES:
                     chk.ok(rule, fi.where, f"evaluated ({tag}): {texts[rule]}")
